@@ -301,8 +301,8 @@ fn greedy_oracle(m: &Mat, x: &NdTensor<f32, 2>, h: &HypOut) -> Option<String> {
     for t in 0..m.t {
         let mut best = 0usize;
         for l in 1..m.l {
-            if m.at(t, l) >= m.at(t, best) {
-                best = l; // last maximum wins (Iterator::max_by)
+            if m.at(t, l) > m.at(t, best) {
+                best = l; // first maximum wins (select_max_index replaces only on Greater)
             }
         }
         path.push(best);
